@@ -173,18 +173,90 @@ def halfbit_atom(y):
     return t_arith("floordiv", t_arith("mul", y, 2), Q)
 
 
-def halfbit_rel(facts, y, a):
-    """from the path facts: is halfbit(y) known to be == a / != a ?  -> True (equal) / False (different) / None"""
-    at = Term("eq", tuple(sorted((halfbit_atom(y), a), key=lambda z: (isinstance(z, Term), repr(z)))), "bool")
-    from ..term import t_eq
-    at = t_eq(halfbit_atom(y), a)
-    if isinstance(at, bool):
-        return at
-    atom, pol = atom_of(at)
-    for f, truth, _ in facts:
-        if f is atom:
-            return truth == pol
+HALF = (Q + 1) // 2          # half-bit(y) = 1  ⇔  y ≥ (q+1)/2   (0 ≤ y < q, q odd)
+
+
+def _lin_in(t, y):
+    """t = k·y + m with integer k, m (y a term) or None"""
+    c, m = linform(t)
+    rest = {a: v for a, v in m.items() if a is not y}
+    if rest:
+        return None
+    return m.get(y, 0), c
+
+
+def hb_known(facts, y):
+    """value of the half-bit of y (0 ≤ y < q) forced by the path facts, or None.  Understood forms: (2y)//q ==/!= c;
+    any strict / non-strict comparison between two integer-linear expressions in y (2y > q, y > (q−1)//2, y ≥ (q+1)//2 …)"""
+    lo, hi = 0, Q - 1
+    fd = halfbit_atom(y)
+    for atom, truth, *_ in facts:
+        if not isinstance(atom, Term):
+            continue
+        if atom.op == "eq":
+            a, b = atom.args
+            for u, c in ((a, b), (b, a)):
+                if u is fd and isinstance(c, int) and c in (0, 1):
+                    one = (c == 1) == truth
+                    if one:
+                        lo = max(lo, HALF)
+                    else:
+                        hi = min(hi, HALF - 1)
+        elif atom.op == "lt":
+            a, b = atom.args
+            la, lb = _lin_in(a, y), _lin_in(b, y)
+            if la is None or lb is None:
+                continue
+            k, m = la[0] - lb[0], la[1] - lb[1]          # k·y + m < 0  (truth)  /  >= 0 (not truth)
+            if k == 0:
+                continue
+            if not truth:
+                k, m = -k, -m - 1                        # -(k y + m) <= 0  ⇔  -k y - m - 1 < 0
+            # k·y + m < 0
+            if k > 0:                                    # y < -m/k  ⇔  y <= ceil(-m/k) - 1
+                hi = min(hi, -((m) // k) - 1 if (-m) % k == 0 else (-m) // k)
+            else:                                        # y > m/(-k)  ⇔  y >= floor(m/(-k)) + 1
+                lo = max(lo, m // (-k) + 1)
+    if lo >= HALF:
+        return 1
+    if hi <= HALF - 1:
+        return 0
     return None
+
+
+def poly_q(t, atoms):
+    """integer term -> polynomial over Z/q; x is the variable 'x'; large modular powers are atoms (recorded in `atoms`)"""
+    from ..poly import Poly
+    if isinstance(t, bool):
+        t = int(t)
+    if isinstance(t, int):
+        return Poly.const(t, Q)
+    if isinstance(t, Term):
+        if t.op == "var":
+            return Poly.var(t.args[0], Q)
+        if t.op in ("add", "sub", "mul"):
+            a, b = poly_q(t.args[0], atoms), poly_q(t.args[1], atoms)
+            return a + b if t.op == "add" else a - b if t.op == "sub" else a * b
+        if t.op == "mod" and t.args[1] == Q:
+            return poly_q(t.args[0], atoms)
+        if t.op == "pow" and isinstance(t.args[1], int) and 0 <= t.args[1] <= 16:
+            return poly_q(t.args[0], atoms) ** t.args[1]
+        if t.op == "powmod" and t.args[2] == Q and isinstance(t.args[1], int):
+            if 0 <= t.args[1] <= 16:
+                return poly_q(t.args[0], atoms) ** t.args[1]
+            nm = f"root#{len(atoms)}"
+            for k, v in atoms.items():
+                if v is t:
+                    nm = k
+            atoms[nm] = t
+            return Poly.var(nm, Q)
+    nm = f"atom#{len(atoms)}"
+    for k, v in atoms.items():
+        if v is t:
+            nm = k
+    atoms[nm] = t
+    from ..poly import Poly as _P
+    return _P.var(nm, Q)
 
 
 def run(chk, repo, tier):
@@ -323,52 +395,57 @@ def judge_g1(paths, want, a, xcls, x, Z1):
             return False, f"accepting path {p.branch_lines()} has no successful root test y0² ≡ x³ + b"
         y0 = _root_of(roots[0], xv)
         yn = Y.n if isinstance(Y, SymFQ) else None
-        if yn is y0:
+        lf = _lin_in(yn, y0) if yn is not None else None
+        if lf == (1, 0):
             flipped = False
-        elif isinstance(yn, Term) and yn.op == "sub" and yn.args[0] == Q and yn.args[1] is y0:
+        elif lf == (-1, Q):
             flipped = True
         else:
             return False, f"y coordinate {Y!r} is neither the tested root nor q − root"
-        rel = halfbit_rel(p.facts, y0, a)
-        if rel is None:
-            return False, f"path {p.branch_lines()} does not compare the root's half-bit (2y // q) with the a flag"
-        # half-bit of q - y0 is 1 - half-bit(y0) for 0 < y0 < q
-        final_equal = (rel != flipped)
-        if not final_equal:
-            return False, f"path {p.branch_lines()}: returned y has half-bit != a flag (root half-bit {'==' if rel else '!='} a, flipped={flipped})"
+        h0 = hb_known(p.facts, y0)
+        if h0 is None:
+            return False, f"path {p.branch_lines()} does not determine the root's half-bit (2y ≥ q) before selecting the sign"
+        # half-bit of q − y0 is 1 − half-bit(y0) for 0 < y0 < q
+        hY = 1 - h0 if flipped else h0
+        if hY != a:
+            return False, f"path {p.branch_lines()}: returned y has half-bit {hY}, a flag is {a} (root half-bit {h0}, negated={flipped})"
     return True, f"{len(rets)} accepting / {len(raises)} rejecting path(s)"
 
 
 def _root_fact(atom, truth, xv, bn=4):
     """is (atom, truth) the fact  y0² ≡ x³ + b (mod q)  for a candidate y0 that finds every root?
-    -> True (root test passed) / False (failed) / None (another fact)"""
+    -> True (root test passed) / False (failed) / None (another fact).  Compared as polynomials over Z/q."""
+    return _root_info(atom, truth, xv, bn)[0]
+
+
+def _root_info(atom, truth, xv, bn=4):
+    from ..poly import Poly
     if not (isinstance(atom, Term) and atom.op == "eq"):
-        return None
-    rhs = rhs_g1(xv, bn)
-    l, r = atom.args
-    for sq, other in ((l, r), (r, l)):
-        if other is rhs or other == rhs:
-            y0 = _sq_base(sq)
-            if y0 is not None and (_is_pow_root(y0, rhs) is not None or not is_sym(rhs)):
-                return truth
-    return None
-
-
-def _sq_base(t):
-    if isinstance(t, Term) and t.op == "powmod" and t.args[1] == 2 and t.args[2] == Q:
-        return t.args[0]
-    if isinstance(t, Term) and t.op == "mod" and t.args[1] == Q:
-        u = t.args[0]
-        if isinstance(u, Term) and u.op == "pow" and u.args[1] == 2:
-            return u.args[0]
-        if isinstance(u, Term) and u.op == "mul" and u.args[0] is u.args[1]:
-            return u.args[0]
-    return None
+        return None, None
+    atoms = {}
+    try:
+        d = poly_q(atom.args[0], atoms) - poly_q(atom.args[1], atoms)
+    except AnalysisError:
+        return None, None
+    X = poly_q(xv, atoms)
+    g = X ** 3 + Poly.const(bn, Q)
+    for nm, t in atoms.items():
+        if not nm.startswith("root#"):
+            continue
+        Y = Poly.var(nm, Q)
+        want = Y * Y - g
+        if (d - want).is_zero() or (d + want).is_zero():
+            # the candidate must be g^e with (q−1)/2 | 2e−1 (Euler: a root is found whenever one exists)
+            base, e, _m = t.args
+            if (poly_q(base, dict(atoms)) - g).is_zero() and (2 * e - 1) % ((Q - 1) // 2) == 0:
+                return truth, t
+    if not atoms and not is_sym(xv):
+        return None, None
+    return None, None
 
 
 def _root_of(atom, xv):
-    l, r = atom.args
-    return _sq_base(l) if _sq_base(l) is not None else _sq_base(r)
+    return _root_info(atom, True, xv)[1]
 
 
 # ---------------------------------------------------------------------------
@@ -527,17 +604,18 @@ def judge_g2(paths, want, a, xcls, zcls, x1, z2v, yre, yim, Z2, b2):
         dom = p.interp.domain
         lo, hi, _h = dom.interval(yim)
         if lo >= 1:
-            rel = halfbit_rel(p.facts, yim, a)
+            h0 = hb_known(p.facts, yim)
             which = "y_im"
         elif hi == 0:
-            rel = halfbit_rel(p.facts, yre, a)
+            h0 = hb_known(p.facts, yre)
             which = "y_re (y_im = 0)"
         else:
             return False, f"path {p.branch_lines()} does not distinguish y_im > 0 from y_im = 0 before selecting the sign"
-        if rel is None:
-            return False, f"path {p.branch_lines()} does not compare the half-bit of {which} with the a flag"
-        if rel == flipped:
-            return False, f"path {p.branch_lines()}: returned y has sign bit != a flag (half-bit of {which} {'==' if rel else '!='} a, negated={flipped})"
+        if h0 is None:
+            return False, f"path {p.branch_lines()} does not determine the half-bit of {which} before selecting the sign"
+        hY = 1 - h0 if flipped else h0          # negation flips the half-bit of the deciding (non-zero) coefficient
+        if hY != a:
+            return False, f"path {p.branch_lines()}: returned y has sign bit {hY} (from {which}), a flag is {a} (negated={flipped})"
     return True, f"{len(rets)} accepting / {len(raises)} rejecting path(s)"
 
 
@@ -723,6 +801,7 @@ def encoders(chk, repo, w):
         return it.call_func(f, [pt], {})
     paths = enumerate_paths(w, run1, class_hooks=[field_hook],
                             summaries={inf[1].qualname: opaque("is_inf", "bool"), nrm[1].qualname: norm_g1})
+    nfin1 = 0
     for p in paths:
         isinf = _fact(p, "is_inf")
         if p.outcome != "return" or isinf is None:
@@ -733,10 +812,12 @@ def encoders(chk, repo, w):
             chk.ob("C11.R3", f.qualname, "infinity ↦ c=1, b=1, a=0, x=0", (c0, lin) == ((1 << 383) + (1 << 382), {}),
                    f"got {show(p.value)[:100]}", f.where)
         else:
-            want = {xn: 1, halfbit_atom(yn): T381}
-            chk.ob("C11.R3", f.qualname, "finite ↦ 2^383 + (2y // q)·2^381 + x  (digits c=1, b=0, a=half-bit(y), x < q < 2^381: no overlap)",
-                   c0 == 1 << 383 and lin == want, f"got {show(p.value)[:160]}", f.where)
-    chk.ob("C11.R3", f.qualname, "two paths (infinity / finite)", len(paths) == 2, f"{len(paths)} paths", f.where)
+            nfin1 += 1
+            ok = _enc_word_ok(c0, lin, xn, yn, p.facts)
+            chk.ob("C11.R3", f.qualname, f"finite [{' '.join(p.branch_lines()) or 'straight'}] ↦ 2^383 + half-bit(y)·2^381 + x  "
+                                         "(digits c=1, b=0, a = [2y ≥ q], x < q < 2^381: no overlap)",
+                   ok, f"got {show(p.value)[:160]}", f.where)
+    chk.ob("C11.R3", f.qualname, "one infinity path, finite path(s)", len(paths) - nfin1 == 1 and nfin1 >= 1, f"{len(paths)} paths", f.where)
     # ---- G2
     f2 = repo.func(f"{PC}.compress_G2")
     xre, xim, yre, yim = (var(n, "int") for n in ("x_re", "x_im", "y_re", "y_im"))
@@ -753,6 +834,7 @@ def encoders(chk, repo, w):
                             summaries={inf[1].qualname: opaque("is_inf", "bool"), nrm[1].qualname: norm_g2,
                                        onc[1].qualname: opaque("is_on_curve", "bool")})
     nfin = 0
+    seen_im = seen_re = False
     for p in paths:
         onc_t = _fact(p, "is_on_curve")
         if p.outcome == "raise":
@@ -774,12 +856,25 @@ def encoders(chk, repo, w):
         nfin += 1
         lo, hi, _h = p.interp.domain.interval(yim)
         carrier = yim if lo >= 1 else yre if hi == 0 else None
-        want1 = {xim: 1, halfbit_atom(carrier): T381} if carrier is not None else None
-        chk.ob("C11.R3", f2.qualname, f"finite, {'y_im > 0' if carrier is yim else 'y_im = 0'} ↦ z1 = 2^383 + half-bit·2^381 + x_im, z2 = x_re "
-                                      "(sign from y_im, or y_re when y_im = 0)",
-               want1 is not None and c1 == 1 << 383 and l1 == want1 and c2 == 0 and l2 == {xre: 1},
-               f"got z1 = {show(v[0])[:140]}, z2 = {show(v[1])[:40]}", f2.where)
-    chk.ob("C11.R3", f2.qualname, "finite paths split on y_im > 0 / y_im = 0", nfin == 2, f"{nfin} finite paths", f2.where)
+        if carrier is yim:
+            seen_im = True
+        elif carrier is yre:
+            seen_re = True
+        ok = carrier is not None and _enc_word_ok(c1, l1, xim, carrier, p.facts) and c2 == 0 and l2 == {xre: 1}
+        chk.ob("C11.R3", f2.qualname, f"finite [{' '.join(p.branch_lines())}], {'y_im > 0' if carrier is yim else 'y_im = 0'} ↦ "
+                                      "z1 = 2^383 + half-bit·2^381 + x_im, z2 = x_re (sign from y_im, or y_re when y_im = 0)",
+               ok, f"got z1 = {show(v[0])[:140]}, z2 = {show(v[1])[:40]}", f2.where)
+    chk.ob("C11.R3", f2.qualname, "finite paths split on y_im > 0 / y_im = 0", seen_im and seen_re, f"{nfin} finite paths", f2.where)
+
+
+def _enc_word_ok(c0, lin, xatom, yatom, facts):
+    """first word = 2^383 + a·2^381 + x with a the half-bit of y: either as the term (2y)//q, or as a constant forced by the path"""
+    if c0 == 1 << 383 and lin == {xatom: 1, halfbit_atom(yatom): T381}:
+        return True
+    if lin == {xatom: 1} and c0 in (1 << 383, (1 << 383) + T381):
+        a = 1 if c0 != 1 << 383 else 0
+        return hb_known(facts, yatom) == a
+    return False
 
 
 def _fact(p, op):
